@@ -154,42 +154,99 @@ func c01CleanupAlways(r *Run) {
 		_, p := accessPath(v)
 		return len(p) > 0 && p[len(p)-1] == "PodToCleanUp"
 	}
+	// clean-up calls: (a) a call handed Parameters.PodToCleanUp whose callee reaches Delete(Pod);
+	// (b) a call to a repository function that itself runs such a call on every non-error return
+	// (the common ending of two planners folded into one helper). Fixpoint over (b).
+	type fnInfo struct {
+		calls  []ssa.CallInstruction
+		always bool
+	}
+	info := map[*ssa.Function]*fnInfo{}
+	var cand []*ssa.Function
 	for _, fn := range sortedFuncs(reach) {
 		if fn.Pkg == nil || fn.Pkg.Pkg.Path() != pkgStrategy {
 			continue
 		}
-		var calls []ssa.CallInstruction
-		for _, ci := range callsIn(fn) {
-			cal := staticCallee(ci.Common())
-			if cal == nil || !r.Prog.IsRuleSite(cal) {
+		cand = append(cand, fn)
+		info[fn] = &fnInfo{}
+	}
+	allReturnsCovered := func(fn *ssa.Function, calls []ssa.CallInstruction) bool {
+		if len(calls) == 0 {
+			return false
+		}
+		ff := computeFacts(fn)
+		idx := errorResultIndex(fn)
+		for _, b := range fn.Blocks {
+			ret := returnOf(b)
+			if ret == nil {
 				continue
 			}
-			for _, a := range ci.Common().Args {
-				if isCleanupLoad(a) {
-					// the callee must reach Delete(*Pod)
-					del := false
-					for _, e := range effectsOf(r.Prog.reachableFuncs(cal)) {
-						if e.Verb == "Delete" && shortKind(e.Kind) == "Pod" {
-							del = true
+			if idx >= 0 && len(ret.Results) > idx && !isNilConst(ret.Results[idx]) {
+				ev := ret.Results[idx]
+				if ff.Holds(b, false, func(v ssa.Value, _ string) bool {
+					return isNilCompareOf(v, func(x ssa.Value) bool { return x == ev })
+				}) {
+					continue
+				}
+			}
+			dominated := false
+			for _, c := range calls {
+				if c.Block() == b || c.Block().Dominates(b) {
+					dominated = true
+				}
+			}
+			if !dominated {
+				return false
+			}
+		}
+		return true
+	}
+	for changed := true; changed; {
+		changed = false
+		for _, fn := range cand {
+			var calls []ssa.CallInstruction
+			for _, ci := range callsIn(fn) {
+				cal := staticCallee(ci.Common())
+				if cal == nil || !r.Prog.IsRuleSite(cal) {
+					continue
+				}
+				if ci2 := info[cal]; ci2 != nil && ci2.always {
+					calls = append(calls, ci)
+					continue
+				}
+				for _, a := range ci.Common().Args {
+					if isCleanupLoad(a) {
+						del := false
+						for _, e := range effectsOf(r.Prog.reachableFuncs(cal)) {
+							if e.Verb == "Delete" && shortKind(e.Kind) == "Pod" {
+								del = true
+							}
 						}
-					}
-					if del {
-						calls = append(calls, ci)
+						if del {
+							calls = append(calls, ci)
+						}
 					}
 				}
 			}
+			al := allReturnsCovered(fn, calls)
+			if len(calls) != len(info[fn].calls) || al != info[fn].always {
+				changed = true
+			}
+			info[fn].calls, info[fn].always = calls, al
 		}
+	}
+	for _, fn := range cand {
+		calls := info[fn].calls
 		if len(calls) == 0 {
 			continue
 		}
 		ff := computeFacts(fn)
 		idx := errorResultIndex(fn)
-		for i, b := range fn.Blocks {
+		for _, b := range fn.Blocks {
 			ret := returnOf(b)
 			if ret == nil {
 				continue
 			}
-			_ = i
 			if idx >= 0 && len(ret.Results) > idx && !isNilConst(ret.Results[idx]) {
 				ev := ret.Results[idx]
 				if ff.Holds(b, false, func(v ssa.Value, _ string) bool {
